@@ -69,7 +69,7 @@ pub fn run_bracket(args: &[String]) {
         let l = log.borrow();
         let mut o = case.clone();
         o["n"] = json!(l.len());
-        let keep = 400.min(l.len());
+        let keep = 1000.min(l.len());
         o["evals"] = Value::Array(l.iter().take(keep).map(|(x, y)| json!([fj(*x), fj(*y)])).collect());
         // extreme abscissae over all evaluations (in case the log was truncated)
         let lo = l.iter().map(|p| p.0).fold(f64::INFINITY, f64::min);
